@@ -872,16 +872,17 @@ Qed.
 (* "capture_logging always restores the previous default logger whatever the test's
    outcome": for every assertion callback, every test body (it may log, flush, replace
    the default logger itself) and every outcome it ends in *)
+Lemma do_cleanups_restore sk p rest w r :
+  do_cleanups sk (CRestore p :: rest) w r = do_cleanups sk rest (fst (swap_logger w p)) r.
+Proof. reflexivity. Qed.
+
 Theorem C14_restore a body w :
   default_logger (fst (run_test (capture_logging a (lift body)) w)) = default_logger w.
 Proof.
   unfold run_test, capture_logging, validate_logging, capture_wrapper, lift.
   cbn [fst snd new_memory_logger swap_logger default_logger].
   destruct (body _ _) as [w' o]. cbn [fst snd].
-  destruct a as [g|]; cbn [do_cleanups run_cleanup swap_logger fst snd].
-  - rewrite do_cleanups_default; [reflexivity|].
-    repeat constructor; intros p; discriminate.
-  - rewrite do_cleanups_default; [reflexivity|].
+  destruct a as [g|]; rewrite do_cleanups_restore, do_cleanups_default; try reflexivity;
     repeat constructor; intros p; discriminate.
 Qed.
 
@@ -978,7 +979,9 @@ Proof.
   - intros F [<-|[<-|[]]].
     + exists (JInt 5). split; [reflexivity|]. apply for_types_accepts. split; [exists TInt; cbn; auto | reflexivity].
     + exists (JInt 0). split; [reflexivity|]. split; [eexists; reflexivity | reflexivity].
-  - intros k v [E|[E|[]]]; inversion E; subst; eexists; (split; [|reflexivity]); cbn; auto.
+  - intros k v [E|[E|[]]]; inversion E; subst.
+    + exists (for_types "key" [TInt] (extra_of XPositive)). split; [cbn; auto | reflexivity].
+    + exists (field_of (FCustom "path" SSucc XNone)). split; [cbn; auto | reflexivity].
 Qed.
 
 (* illegal definitions are refused by the constructor *)
